@@ -41,6 +41,7 @@ Exc = _E.create()
 
 RECORDS: dict[str, z3.DatatypeSortRef] = {}
 RECORD_FIELDS: dict[str, list[tuple[str, str]]] = {}
+LIST_RECORDS: dict[str, str] = {}  # record name of a nested list -> its element sort name
 RECORD_MUTABLE: dict[str, bool] = {}
 
 
@@ -82,6 +83,14 @@ def sort_of(name: str):
         return Exc
     if name.startswith('seq[') and name.endswith(']'):
         return z3.SeqSort(sort_of(name[4:-1]))
+    if name.startswith('arrlist[') and name.endswith(']'):
+        # a list held as an element of another array-backed list: a record (items array, length)
+        inner = name[len('arrlist['):-1]
+        rname = 'ListOf_' + ''.join(ch if ch.isalnum() else '_' for ch in inner)
+        if rname not in RECORDS:
+            declare_record(rname, [('items', f'arr[int,{inner}]'), ('n', 'int')])
+            LIST_RECORDS[rname] = inner
+        return RECORDS[rname]
     if name.startswith('arr[') and name.endswith(']'):
         k, v = name[4:-1].split(',')
         return z3.ArraySort(sort_of(k), sort_of(v))
